@@ -61,8 +61,21 @@ fn pop_of(vals: &[i32]) -> Vec<L> {
     vals.iter().enumerate().map(|(i, v)| L { id: i as u32, val: *v }).collect()
 }
 
+/// A tournament of size k, through every public constructor that can express k (they must all mean the same).
 fn tournament(k: usize) -> Tournament {
-    Tournament::new(NonZeroUsize::new(k.max(1)).unwrap_or(NonZeroUsize::MIN))
+    tournament_via(k, 0)
+}
+
+fn tournament_via(k: usize, ctor: u64) -> Tournament {
+    match (k, ctor % 3) {
+        (2, 1) => Tournament::binary(),
+        (1, 2) => Tournament::of_size::<1>(),
+        (2, 2) => Tournament::of_size::<2>(),
+        (3, 2) => Tournament::of_size::<3>(),
+        (4, 2) => Tournament::of_size::<4>(),
+        (7, 2) => Tournament::of_size::<7>(),
+        _ => Tournament::new(NonZeroUsize::new(k.max(1)).unwrap_or(NonZeroUsize::MIN)),
+    }
 }
 
 fn exec_one(vals: &[i32], which: Which, spec: &RngSpec, obs: &mut Obs) -> Vec<Violation> {
@@ -79,7 +92,7 @@ fn exec_one(vals: &[i32], which: Which, spec: &RngSpec, obs: &mut Obs) -> Vec<Vi
         Which::Best => Best.select(&pop, &mut rng).ok().map(|x| x.id),
         Which::Worst => Worst.select(&pop, &mut rng).ok().map(|x| x.id),
         Which::Tournament(k) => {
-            let t = tournament(k);
+            let t = tournament_via(k, spec.seed >> 7);
             if warm {
                 let mut wr = simcore::SimRng::seeded(spec.seed ^ 0x51ab);
                 let _ = t.select(&warm_pop, &mut wr);
